@@ -117,13 +117,91 @@ Section PliFacts.
     unfold kernel_into_t, kernel_into. destruct (backend_kernel b); [apply stripe_into_generic_t_eq|reflexivity].
   Qed.
 
-  Lemma step2_t_eq st o : step2_t K C st o = step2 K C st o.
+  (* except for sample: step2's OSample is the function before the repair of /repo 740d563 *)
+  Lemma step2_t_eq st o : (forall draws len, o <> OSample draws len) -> step2_t K C st o = step2 K C st o.
   Proof.
-    destruct o as [o|draws len|m len]; [|reflexivity|reflexivity].
+    intros Hns.
+    destruct o as [o|draws len|m len]; [|exfalso; apply (Hns draws len); reflexivity|reflexivity].
     destruct o as [b q|b q|M|k]; cbn [step2_t step2 step_t step]; try reflexivity.
     - apply stripe_into_t_eq.
     - destruct (backend_typed C b); [|reflexivity].
       apply stripe_fresh_t_eq. intros q' st'. apply stripe_into_t_eq.
+  Qed.
+
+  (* ---------- the repaired StripedSequence::sample ---------- *)
+
+  Lemma sm_rows_val len : tx (sm_rows_ok len C xr) (sm_rows_div len C xr) (sm_rows len C xr) = Ok (seq_rows C len).
+  Proof.
+    assert (sm_rows_ok len C xr = true) as Hok by (unfold sm_rows_ok; guard_true).
+    assert (divs_ok (sm_rows_div len C xr) = true) as Hdiv by (unfold sm_rows_div; divs_true).
+    unfold tx. rewrite Hok, Hdiv. cbn [negb]. unfold sm_rows, seq_rows.
+    first [ reflexivity | apply (f_equal (@Ok nat)); apply (f_equal (fun x => Nat.div x C)); lia ].
+  Qed.
+
+  Lemma sample_fill_t_eq len m : sample_fill_t K C len m = fill_tail K C (length m) len m.
+  Proof.
+    unfold sample_fill_t, fill_tail.
+    unfold sm_f_lo_ok, sm_f_lo_div, sm_f_lo, sm_f_hi_ok, sm_f_hi_div, sm_f_hi.
+    rewrite !tx_true. cbn [rbind]. unfold range.
+    match goal with |- for_res ?l1 _ _ = for_res ?l2 _ _ =>
+      replace l1 with l2 by first [ reflexivity | f_equal; lia ] end.
+    apply for_res_ext. intros i x _.
+    unfold put_striped, sm_f_row_ok, sm_f_row_div, sm_f_row, sm_f_col_ok, sm_f_col_div, sm_f_col.
+    rewrite !tx_div1. destruct (length m =? 0); reflexivity.
+  Qed.
+
+  Lemma nth_sample_seq stream len i : i < len ->
+    nth i (sample_seq C stream len) (wild K) = stream ((i mod seq_rows C len) * C + i / seq_rows C len).
+  Proof.
+    intros Hi. unfold sample_seq. rewrite (sample_rows_eq C HC len).
+    rewrite (nth_indep _ (wild K) ((fun j => stream (j mod seq_rows C len * C + j / seq_rows C len)) 0))
+      by (rewrite map_length, seq_length; assumption).
+    rewrite (map_nth (fun j => stream (j mod seq_rows C len * C + j / seq_rows C len))).
+    rewrite seq_nth by assumption. reflexivity.
+  Qed.
+
+  (* the repaired sample never fails and gives the striped form -- wildcard padding -- of the
+     sampled sequence; cell (r, c) is draw r*C + c when its linear index c*R + r is inside the
+     sequence, the wildcard otherwise *)
+  Lemma sample_fix_spec stream len :
+    exists st, striped_sample_fix K C stream len = Ok st /\
+      Striped K C (sample_seq C stream len) st /\ swrap st = 0 /\ slen st = len /\
+      forall r c, r < seq_rows C len -> c < C ->
+        nth c (nth r (mat st) []) (wild K) =
+        if c * seq_rows C len + r <? len then stream (r * C + c) else wild K.
+  Proof.
+    unfold striped_sample_fix. rewrite sm_rows_val. cbn [rbind].
+    fold (sample_matrix C stream len) || idtac.
+    replace (map (fun r => map (fun c => stream (r * C + c)) (seq 0 C)) (seq 0 (seq_rows C len)))
+      with (sample_matrix C stream len) by (unfold sample_matrix; rewrite (sample_rows_eq C HC len); reflexivity).
+    pose proof (sample_matrix_wf C stream len) as Hwf.
+    pose proof (sample_matrix_length C HC stream len) as Hlen.
+    pose proof (seq_rows_ge C len HC) as Hge.
+    rewrite sample_fill_t_eq, Hlen. unfold fill_tail. rewrite Hlen.
+    assert (HL2 : len + (seq_rows C len * C - len) <= seq_rows C len * C) by lia.
+    destruct (put_loop_spec K C (seq_rows C len) (fun _ => wild K) (seq_rows C len * C - len) len
+                (sample_matrix C stream len) Hwf Hlen HL2) as (m2 & Hrun & Hwf2 & Hlen2 & Hc2).
+    rewrite Hrun. cbn [rbind].
+    unfold sm_newlen_ok, sm_newlen_div, sm_newlen. rewrite tx_true. cbn [rbind].
+    unfold s_new_t, new_guard, new_wrap. rewrite Hlen2.
+    destruct (Nat.ltb_spec (seq_rows C len * C) len) as [Hbad|_]; [lia|].
+    assert (Hcells : forall r c, r < seq_rows C len -> c < C ->
+              nth c (nth r m2 []) (wild K) = if c * seq_rows C len + r <? len then stream (r * C + c) else wild K).
+    { intros r c Hr Hc. pose proof (Hc2 r c Hr Hc) as E. unfold cell in E. rewrite E.
+      pose proof (idx_lt r c (seq_rows C len) C Hr Hc) as Hk.
+      destruct (Nat.ltb_spec (c * seq_rows C len + r) len) as [Hin|Hout].
+      - destruct (Nat.leb_spec len (c * seq_rows C len + r)); [lia|]. cbn [andb].
+        apply (sample_matrix_cell K C HC stream len r c Hr Hc).
+      - destruct (Nat.leb_spec len (c * seq_rows C len + r)); [|lia].
+        destruct (Nat.ltb_spec (c * seq_rows C len + r) (len + (seq_rows C len * C - len))); [|lia]. reflexivity. }
+    eexists. split; [reflexivity|]. split; [|split; [reflexivity|split; [reflexivity|exact Hcells]]].
+    assert (Hsl : length (sample_seq C stream len) = len) by (unfold sample_seq; rewrite map_length, seq_length; reflexivity).
+    unfold Striped. cbn [mat slen swrap]. rewrite Hsl.
+    split; [exact Hwf2|]. split; [lia|]. split; [reflexivity|].
+    intros r c Hr Hc. rewrite Nat.add_0_r in Hr. unfold cell. rewrite (Hcells r c Hr Hc).
+    destruct (Nat.ltb_spec (c * seq_rows C len + r) len) as [Hin|Hout].
+    - rewrite (nth_sample_seq stream len _ Hin). rewrite idx_mod, idx_div by assumption. reflexivity.
+    - symmetry. apply nth_overflow. lia.
   Qed.
 
   (* ---------- the destination is overwritten completely ---------- *)
@@ -172,10 +250,15 @@ Section PliFacts.
   Proof.
     intros HP Hok. unfold step3, seq_after3_1.
     destruct o as [o|  |a q|]; cbn [lower op3_ok] in *.
-    - rewrite step2_t_eq. apply (step2_spec K C HC); assumption.
+    - destruct o as [o1|draws len|m len].
+      + rewrite step2_t_eq by (intros; discriminate). apply (step2_spec K C HC); assumption.
+      + cbn [step2_t seq_after1].
+        destruct (sample_fix_spec (stream_of draws) len) as (st' & A & B & _).
+        exists st'. split; [exact A|]. apply Striped_StripedPad; assumption.
+      + rewrite step2_t_eq by (intros; discriminate). apply (step2_spec K C HC); assumption.
     - exists st. split; [reflexivity|assumption].
-    - rewrite step2_t_eq. apply (step2_spec K C HC); [assumption|]. cbn [op2_ok op_typed backend_typed]. assumption.
-    - rewrite step2_t_eq. apply (step2_spec K C HC); [assumption|]. apply (StripedPad_new_ok s); assumption.
+    - rewrite step2_t_eq by (intros; discriminate). apply (step2_spec K C HC); [assumption|]. cbn [op2_ok op_typed backend_typed]. assumption.
+    - rewrite step2_t_eq by (intros; discriminate). apply (step2_spec K C HC); [assumption|]. apply (StripedPad_new_ok s); assumption.
   Qed.
 
   Lemma run3_spec : forall ops s st, StripedPad K C s st -> forallb (op3_ok C) ops = true ->
@@ -199,11 +282,11 @@ Section PliFacts.
     (swrap st = 0 -> step3 K C st OViaMatrix = Ok st /\ seq_after3_1 K C s st OViaMatrix = s).
   Proof.
     intros HP. split; [reflexivity|]. split.
-    { intros a q HC32. unfold step3. cbn [lower]. rewrite step2_t_eq. cbn [step2 step_t step].
+    { intros a q HC32. unfold step3. cbn [lower]. rewrite step2_t_eq by (intros; discriminate). cbn [step2 step_t step].
       assert (backend_typed C (BDispatch a) = true) as Hb by (cbn [backend_typed]; apply Nat.eqb_eq; assumption).
       rewrite Hb. apply (stripe_fresh_spec K C HC). intros old Hwf. apply stripe_into_spec; assumption. }
     assert (step3 K C st OViaMatrix = Ok (mkS (mat st) (slen st) 0)) as Hv.
-    { unfold step3. cbn [lower]. rewrite step2_t_eq. cbn [step2].
+    { unfold step3. cbn [lower]. rewrite step2_t_eq by (intros; discriminate). cbn [step2].
       pose proof (StripedPad_new_ok s st HP) as Hok. cbn [op2_ok] in Hok.
       apply andb_true_iff in Hok. destruct Hok as [Hw Hl]. rewrite Hw.
       unfold s_new_t, new_guard, new_wrap. apply Nat.leb_le in Hl.
